@@ -94,6 +94,7 @@ func Funcs(pkg *packages.Package) []*Fn {
 		return fs
 	}
 	out := funcsUncached(pkg)
+	applyRenames(pkg, out)
 	funcsCache[pkg] = out
 	return out
 }
@@ -277,6 +278,9 @@ func ObjIs(o types.Object, pkgSuffix, name string) bool {
 
 // FuncDisplay renders "(*T).M", "(T).M", "(I).M" for interface methods, or "F".
 func FuncDisplay(fn *types.Func) string {
+	if old, ok := renamedObj[fn]; ok {
+		return old
+	}
 	sig, _ := fn.Type().(*types.Signature)
 	if sig == nil || sig.Recv() == nil {
 		return fn.Name()
